@@ -5,6 +5,7 @@
 //! trusted: env: LocalHTLCFailureReason is a three-variant skeleton (the two variants the block names + Other(code)); its predicates is_badonion / is_node / is_permanent / is_temporary / is_recipient_failure / get_onion_debug_field are external_body with unconstrained answers (any code table); ErrorHop / RouteHop / TrampolineHop / FailureLearnings are the function-local types re-declared (ErrorHop::{pubkey, short_channel_id} external_body with the bodies' meaning); NetworkUpdate is extracted; PublicKey opaque Copy; R3: log statements removed; R8: `v.get(a..b)` on the failure message -> get_range (Some iff a <= b <= len), `u16::from_be_bytes(s.try_into().expect(..))` -> be16 (unconstrained value)
 //! assume: the path has no trampoline hops: the hop that sent the failure and the failing hop are ErrorHop::RouteHop; when the failure is from the final node the failing hop is that hop (how the caller chooses failing_route_hop)
 //! trusted: assume_specification for core::cmp::max / core::cmp::min (std definitions): present in every unit so that a change that introduces them is verified instead of being rejected by the tool
+//! trusted: closing_hands_back: ChannelContext::force_shutdown: the match inside the loop that drains the holding cell, verbatim as a function of one held update (R15 deep slice; enum HTLCUpdateAwaitingACK extracted over skeleton field types); the second loop (HTLCs announced only in a blocked monitor update) is not sliced
 //! trusted: onchain_failed: ChannelMonitor::get_onchain_failed_outbound_htlcs: the test that recognises the confirmed transaction as a counterparty commitment and the burial test of the funding spend are deep R15 slices; R8: `Some(x) == opt` on txids -> opt_txid_eq (verified helper); walking the HTLCs (closure inside a macro) is dropped and not claimed
 use vstd::prelude::*;
 verus! {
@@ -118,6 +119,38 @@ pub fn opt_txid_eq(a: Option<Txid>, b: Option<Txid>) -> (r: bool) ensures r == (
 pub struct EventStub { pub height: u32, pub txid: Txid }
 pub struct BestBlock { pub height: u32 }
 pub struct MonStub { pub best_block: BestBlock }
+}
+// ---- a channel that closes hands back the outbound HTLCs it never sent, so that their payments are failed ------------------------
+pub mod closing_hands_back {
+use vstd::prelude::*;
+#[derive(Clone, Copy)] pub struct PaymentHash(pub [u8; 32]);
+pub struct PaymentPreimage(pub [u8; 32]);
+pub struct HTLCSource { pub id: u64 }
+pub struct OnionPacket {}
+pub struct OnionErrorPacket {}
+pub struct AttributionData {}
+#[derive(Clone, Copy)] pub struct PublicKey { pub id: u64 }
+#[derive(Clone, Copy)] pub struct ChannelId { pub id: u64 }
+//@extract lightning/src/ln/channel.rs :: enum HTLCUpdateAwaitingACK
+//@strip msgs
+//@end
+pub struct ClosingCtx { pub channel_id: ChannelId }
+impl ClosingCtx {
+//@extract lightning/src/ln/channel.rs :: impl ChannelContext :: fn force_shutdown
+//@slice R15
+    for htlc_update in self.holding_cell_htlc_updates.drain(..) { match htlc_update { $arms:any } }
+//@with
+    fn hand_back_unsent_htlc(&self, htlc_update: HTLCUpdateAwaitingACK, counterparty_node_id: PublicKey, dropped_outbound_htlcs: &mut Vec<(HTLCSource, PaymentHash, PublicKey, ChannelId)>) { match htlc_update { $arms } }
+//@ensures P C03 an-outbound-htlc-still-in-the-holding-cell-when-the-channel-closes-is-handed-back-with-its-source-and-hash-so-its-payment-is-failed
+    final(dropped_outbound_htlcs)@ == old(dropped_outbound_htlcs)@ + (match htlc_update {
+        HTLCUpdateAwaitingACK::AddHTLC { source, payment_hash, .. } => seq![(source, payment_hash, counterparty_node_id, self.channel_id)],
+        _ => Seq::empty() }),
+//@mutant unsent_htlcs_dropped_silently
+    HTLCUpdateAwaitingACK::AddHTLC { source, payment_hash, .. } => { dropped_outbound_htlcs.push(( source, payment_hash, counterparty_node_id, self.channel_id, )); },
+//@with
+    HTLCUpdateAwaitingACK::AddHTLC { source, payment_hash, .. } => { },
+//@end
+}
 }
 }
 fn main() {}
